@@ -18,6 +18,8 @@ func checkC07(c *Ctx, r *Report) {
 	// an embedded struct is composed into its parent (allOf) because it is embedded - nothing else
 	// (its tag, its name) takes part in that decision, in either emitter or in the shared helper
 	defer checkEmbeddingDecision(c, r, "C07.c")
+	// a type's description / deprecation are its own: not those of the `type ( ... )` block it is written in
+	defer checkOwnDocWins(c, r, "C07.e")
 	// the models the spec is built from are the reduced declarations, not what another generator left in them
 	defer checkNoInPlaceWritesToInputs(c, r, "C07.e", "core/metadata", "generator/swagen", "generator/routes")
 	// ... and none is taken out again: the lists of values, fields and models that were built element
